@@ -78,6 +78,30 @@ def cases(rng, tier):
                 decls.append((g, b, pool.pop(), rng.randrange(len(KINDS))))
         rng.shuffle(decls)
         out.append({"wgsl": render(decls, rng), "family": "random", "opts": {"rustfmt": i % 15 == 0}, "truth": truth_of(decls)})
+    # two-digit group numbers (BindGroup10 sorts before BindGroup2 as text)
+    for i in range({"quick": 6, "search": 12, "thorough": 40}[tier]):
+        ng = rng.randint(11, 14)
+        pool = list(NAMES) + ["v%d" % k for k in range(80)]
+        rng.shuffle(pool)
+        decls = [(g, rng.choice([0, 1, 3]), pool.pop(), rng.randrange(len(KINDS))) for g in range(ng)]
+        rng.shuffle(decls)
+        out.append({"wgsl": render(decls, rng), "family": "many_groups", "opts": {}, "truth": truth_of(decls)})
+    # groups that look alike: same binding indices and WGSL types, different address space / access
+    twins = [(0, "var<uniform> {n}: U;"), (1, "var<storage, read> {n}: U;"), (2, "var<storage, read_write> {n}: U;"),
+             (3, "var<uniform> {n}: vec4<f32>;"), (4, "var<storage, read_write> {n}: vec4<f32>;")]
+    for i in range({"quick": 6, "search": 12, "thorough": 30}[tier]):
+        k = rng.randint(2, 4)
+        chosen = rng.sample(twins[:3], min(k, 3)) if rng.random() < 0.6 else twins[3:]
+        b = rng.choice([0, 2])
+        lines = ["struct U { a: vec4<f32>, b: f32 }"]
+        truth = []
+        for g, (_, decl) in enumerate(chosen):
+            n = "p%d" % g
+            lines.append("@group(%d) @binding(%d) %s" % (g, b, decl.format(n=n)))
+            truth.append((g, [(n, "RKBuffer", b)]))
+        use = " ".join("_ = p%d%s;" % (g, ".a" if "U;" in d else "") for g, (_, d) in enumerate(chosen)) if rng.random() < 0.5 else ""
+        lines.append("@compute @workgroup_size(1) fn main() { %s }" % use)
+        out.append({"wgsl": "\n".join(lines) + "\n", "family": "lookalike_groups", "opts": {}, "truth": truth})
     return out
 
 
